@@ -106,14 +106,25 @@ CLAIMED = {
    note="Trusted: Coq kernel; hand-written model tied to the code by the correspondence check (extraction ExtrOcamlBasic, OCaml driver incl. float_of_string as f64 parser and identity as LZ4, Rust harness, generators, Python oracle computed from the abstract history).",
    technique="Coq proof (corollaries of the store refinement, all signal kinds) + extracted-model correspondence + canonical-form monitor"),
  "C14": dict(
-   category="translation_validation",
-   text="Every generated VCD is loaded through 8 entry-point/mode combinations (mmap path single/multi-threaded, reader over Cursor and "
-        "BufReader<File>, two-phase header/body with and without progress counter, read_header_from_file with both multi_thread values); "
-        "all observations and body_len must agree with each other, with the model's three body drivers (reader: absolute stop position; "
-        "mmap single-thread: len-1; multi-thread) and with the meaning of the history.",
-   design_ref="DESIGN.md section 6, C14",
-   note="Trusted: Coq kernel, extraction (ExtrOcamlBasic), OCaml driver incl. float_of_string as f64 parser and identity as LZ4, Rust harness, generators and the Python oracle computed from the abstract history.  mmap, BufReader and ProgressTracker are I/O plumbing: exercised, not modelled.",
-   technique="correspondence: Coq model of the three body drivers extracted to OCaml vs real entry points + oracle"),
+   category="proof",
+   text="Coq theorems pinned in Properties/C14.v: entry_points_agree - for EVERY body the reader driver (stop position = absolute end "
+        "of the file, header included) and the single-threaded slice driver (stop position = last byte) yield the same blocks and time "
+        "table, because a stop position at or beyond the last byte can never fire the hand-over rule (parse_body_stop_irrelevant); "
+        "entry_points_all_agree - composed with C03's read_values_mt_equals_st: for every body written one token group per line with "
+        "increasing time stamps and every max_threads / min_chunk, reader, single-threaded slice and multi-threaded slice load the same "
+        "time table and every bit-vector signal reports the same changes. All entry points read the header with one generic function "
+        "(model: C09's read_header_mdecls). Tie and remaining glue: every generated VCD is loaded through 8 entry-point/mode "
+        "combinations (mmap path single/multi-threaded, reader over Cursor and BufReader<File> with capacities 3..16 bytes, two-phase "
+        "header/body with and without progress counter, read_header_from_file with both multi_thread values, misleading file "
+        "extensions, options); all observations and body_len must agree with each other, with the extracted model's three body drivers "
+        "and with the meaning of the history; FST and GHW files through every entry point that accepts them.",
+   design_ref="DESIGN.md section 6, C14 and section 12.5",
+   note="Modelled, not verified: std::io::Bytes over a BufRead and memmap2 deliver the bytes of the file in order (wellen has no refill "
+        "logic of its own), the dispatch glue of simple::read* / viewers::read_header* / read_body, ProgressTracker; layouts other than "
+        "one token group per line on the multi-threaded path (C03's limit; findings D8/D15/D16 live there). Trusted: Coq kernel, "
+        "extraction (ExtrOcamlBasic), OCaml driver incl. float_of_string as f64 parser and identity as LZ4, Rust harness, generators and "
+        "the Python oracle computed from the abstract history.",
+   technique="Coq proof (drivers agree for every body; mt = st for line-structured bodies) + correspondence over all entry points"),
  "C15": dict(
    category="proof",
    text="Coq theorems pinned in Properties/C15.v state the property's prefix clauses for the single-threaded loader and bit-vector "
@@ -187,21 +198,24 @@ CLAIMED = {
    note="Trusted: Coq kernel; hand-written model Model/Slice.v tied to signals.rs by the correspondence check (extraction, OCaml driver, Rust harness in debug + release, Python substring oracle).",
    technique="Coq proof (slicer refines substring-of-every-entry + de-duplication) + extracted-model correspondence (exhaustive small scope, debug+release) + substring oracle"),
  "C09": dict(
-   category="translation_validation",
-   text="The Gallina model of the VCD header path (read_command incl. the `$end` matcher, find_tokens, read_vcd_header, the callback of "
-        "read_hierarchy_inner with attributes 02/03/04, IdTracker::need_id_map and the restart with an id map, parse_name, "
-        "extract_suffix_index with i64/i32 arithmetic, VarIndex, keyword tables, bit_vec_of_len) produces HierarchyBuilder operations that "
-        "are run through the hierarchy model of C08; extracted to OCaml it is compared with viewers::read_header on generated headers "
-        "(both option values) and on keyword / index-form sweeps; oracle: hierarchy computed from the abstract declaration tree by an "
-        "independent rose-tree specification, meta data as written, header length. Coq theorems pinned in Properties/C09.v: "
-        "parse_name_range / parse_name_single / parse_name_plain (Proofs/NameProofs.v: every reference `base {[group]} [i]` or "
-        "`... [msb:lsb]` - any number of array groups, blanks or none between the parts, negative bounds, up to 18 digits - is split "
-        "into exactly that bit range, the last group as the variable's name and base + other groups as array scopes), "
-        "var_index_roundtrip (the packed VarIndex gives the bounds back), id_to_int_injective (equal signal numbers only from equal "
-        "identifier codes). The command loop and the scope stack are not covered by theorems, hence the level.",
+   category="proof",
+   text="Coq theorem read_header_mdecls (Proofs/CmdProofs.v, pinned in Properties/C09.v): every header made of $date / $version / "
+        "$comment / $timescale / $scope / $upscope / $var commands in any order - each written `$<keyword> <body> $end` with any blank "
+        "space around its parts, $date/$version/$timescale at most once, no $attrbegin - is read successfully by the model of "
+        "read_hierarchy; the header length is the length of the commands up to and including `$enddefinitions $end`; date, version and "
+        "time scale are reported as written; the calls to the hierarchy builder are exactly those of the declarations in order: scope "
+        "kind and name (an empty name dissolved exactly when the option is set), variable kind, width (0 read as 1), bit range [i] / "
+        "[msb:lsb] with negative bounds and optional blanks (parse_name_range/single/plain, var_index_roundtrip), further bracket "
+        "groups as array scopes around the variable, signals numbered by identifier code directly or - after the restart with a map "
+        "- by first appearance, shared exactly by equal codes (decls_share, id_to_int_injective). What tree the builder makes of the "
+        "calls (position, re-opened sibling scopes, lookups) is C08's theorems. Keyword tables are regenerated from vcd.rs by the "
+        "translator. Not covered by theorems: $attrbegin extensions, when IdTracker::need_id_map asks for the map. Those, and the tie "
+        "of the model to vcd.rs, are decided by the correspondence run: the extracted model of the header path against "
+        "viewers::read_header on generated headers (both option values) and keyword / index-form sweeps, with an oracle computed from "
+        "the abstract declaration tree by an independent rose-tree specification.",
    design_ref="DESIGN.md section 6, C09 and section 12.5",
-   note="Trusted: Coq kernel, extraction, OCaml driver, Rust harness, Python declaration printer + oracle. Blank space inside commands is limited to spaces; names are ASCII.",
-   technique="correspondence: Coq model extracted to OCaml vs real header parser + oracle from abstract declaration tree; Coq theorems for the name/bit-range clause"),
+   note="Trusted: Coq kernel; the hand-written model Model/VcdHeader.v tied to vcd.rs by the correspondence check (extraction, OCaml driver, Rust harness, Python declaration printer + oracle). Blank space inside command bodies is limited to spaces; names are ASCII.",
+   technique="Coq proof (header text -> commands -> hierarchy builder calls, for every header of the seven command kinds) + extracted-model correspondence + oracle from the abstract declaration tree"),
  "C07": dict(
    category="proof",
    text="Coq theorems over the Gallina model of SignalSource::load_signals (sort, dedup, alias substitution, zip back, slice) and of the "
@@ -232,15 +246,27 @@ CLAIMED = {
    note="Trusted: Coq kernel, extraction, OCaml driver, the Python driver pyharness/run_py.py, Python oracle; PyO3 glue and num-bigint (int conversion of long 0/1 strings) are exercised, not modelled. Theorem premises: non-decreasing change indices (C02/C04), fewer than 65536 changes of one signal in one time step (complement: known finding D12), indices inside the time table.",
    technique="Coq proof (binding logic refines iter_changes / point queries) + extracted-model correspondence against the real extension module + oracle"),
  "C17": dict(
-   category="translation_validation",
-   text="With feature serde1 every Hierarchy and loaded Signal of generated VCD files and of the corpus files of all three formats is "
-        "serialised with serde_json, deserialised, and the clone's complete observation (tree walk with attributes, lookups, slice info, "
-        "change iteration, point queries at every index) is compared with the original; the JSON of real objects is validated against a "
-        "schema that a translator regenerates from the derive sites of the current source on every run (26 types). No Coq theorem is "
-        "pinned for this property yet (the generated-schema round-trip theorem of DESIGN.md is future work), hence the level.",
-   design_ref="DESIGN.md section 6, C17",
-   note="Trusted: serde derive macros and serde_json (A-serde), the translator, the Python schema validator, the Rust harness.",
-   technique="translator (derive sites -> schema) + validation of real JSON + behavioural round trip on generated and corpus objects"),
+   category="proof",
+   text="Coq theorems pinned in Properties/C17.v: de_ser - for every shape of type built from integers (ranges, NonZero), bool, String, "
+        "Option, Vec, HashMap with integer keys (decimal text, read_show_N), tuples, structs and enums with unit / newtype / struct / "
+        "tuple variants, the document serde_json writes for a value is read back by the derived Deserialize as that value, provided no "
+        "Option sits directly inside an Option and variant names are distinct (both conditions are needed: nested_option_refuted, "
+        "duplicate_variant_refuted); derive_sites_roundtrip / derive_sites_reserialise - this holds for every one of the shapes that a "
+        "translator regenerates from the serde derive sites of the current source on every run (Generated/SerdeSchema.v; 26 sites, "
+        "Hierarchy and Signal among them: roots_present; side conditions by computation: serde_types_ok; non-vacuity: "
+        "serde_types_inhabited), and a second serialisation reproduces the document. Behaviour under the accessors: the objects are "
+        "plain data, every field is in the shape (any #[serde(..)] attribute stops the translator), so equal field values behave "
+        "equally; that, and the model itself, are tied to the code by the run: every Hierarchy and loaded Signal of generated VCD "
+        "files and of the corpus files of all three formats is serialised, deserialised and the clone's complete observation (tree "
+        "walk with attributes, lookups, slice info, change iteration, point queries at every index) compared with the original; the "
+        "JSON of real objects must be read and re-written identically by the extracted model (image of ser) and validate against the "
+        "translated schema; locally corrupted documents must be accepted / rejected alike by the derived code and by the model.",
+   design_ref="DESIGN.md section 6, C17 and section 12.5",
+   note="Modelled, not verified: what serde's derive macros generate and serde_json's encoding (Model/Serde.v; the model's de accepts "
+        "only documents in the form ser writes, the derived code also accepts reordered members and sequences for structs - corrupted "
+        "documents of those kinds are not generated). Trusted: the translator (derive sites -> shapes), Coq kernel + vm_compute, "
+        "extraction (ExtrOcamlBasic), OCaml document parser, Python document encoder and schema validator, Rust harness.",
+   technique="Coq proof (generic serde round trip over translated shapes) + translator + correspondence on real and corrupted JSON"),
  "C10": dict(
    category="translation_validation",
    text="Value path: Coq theorems fst_writer_spec / fst_writer_rs_spec (pinned in Properties/C10.v) - the signal fst::SignalWriter builds from "
